@@ -3,6 +3,7 @@
 
 mod bytes;
 mod conc;
+mod fault;
 mod model;
 mod seq;
 mod shim;
@@ -23,6 +24,7 @@ fn main() {
     .pbt(seq::RoundTrip)
     .pbt(seq::Truncation)
     .pbt(conc::Concurrent)
+    .pbt(fault::FaultInjection)
     .pbt(bytes::Arbitrary);
     vcore::main_with(vec![check], &[("selftest", model_selftest), ("layout", layout)]);
 }
